@@ -76,10 +76,12 @@ func Check(v any) error {
 	for i := 0; i < value.NumField(); i++ {
 		sf := value.Type().Field(i)
 
-		if strings.HasPrefix(sf.Tag.Get("api"), "rel,") {
-			s := strings.Split(sf.Tag.Get("api"), ",")
+		// A field is a relationship if the first element of its api tag
+		// is "rel", which is also how Wrap and BuildType recognize it.
+		s := strings.Split(sf.Tag.Get("api"), ",")
 
-			if len(s) < 2 || len(s) > 3 {
+		if s[0] == "rel" {
+			if len(s) < 2 || len(s) > 3 || s[1] == "" {
 				return fmt.Errorf(
 					"jsonapi: api tag of relationship %q of struct %q is invalid",
 					sf.Name,
